@@ -488,8 +488,8 @@ def cached_class_factories(tree):
     return out
 
 
-def r89(chk, m):
-    R = chk.rule('R8.9', 'classes generated for a document (\\the<counter>, \\newif, \\newcommand ...) are built per call: no memoised '
+def r89(chk, m, rule_id='R8.9'):
+    R = chk.rule(rule_id, 'classes generated for a document (\\the<counter>, \\newif, \\newcommand ...) are built per call: no memoised '
                  'function (lru_cache / cache) returns a class made with type(): such a class would be shared by every later '
                  'document, and class packages patch its format in place', 1)
     need(len(cached_class_factories(ast.parse(FACTORY_SAMPLE))) == 1, 'self-test of the cached-class-factory rule failed')
